@@ -110,7 +110,7 @@ c.modifies()
 CP = "set_loky_pickler.CustomizablePickler"
 HAS_CLS_DT = "cfg('hasattr:pickler-class-has-dispatch_table')"
 
-c = M.contract(f"{CP}._set_dispatch_table", props=["C15"])
+c = M.contract(f"{CP}._set_dispatch_table", props=["C15", "C03"])
 c.param("self", T.Ref("CustomizablePickler")).param("dispatch_table", DT)
 c.ensures("pickler/table-installed", "self.dispatch_table is dispatch_table")
 c.modifies("self.dispatch_table")
@@ -118,7 +118,7 @@ c.assumes("A-user")
 i = S.invariant(f"{RED}:{CP}._set_dispatch_table", 0, "for ancestor_class in self._loky_pickler_cls.mro():")
 i.inv("trivial", "True")
 
-c = M.contract(f"{CP}.register", props=["C15"])
+c = M.contract(f"{CP}.register", props=["C15", "C03"])
 c.param("self", T.Ref("CustomizablePickler")).param("type", T.Obj).param("reduce_func", T.Obj)
 c.ensures("pickler/register-writes-only-its-own-table",
           "type in self.dispatch_table and self.dispatch_table[type] is reduce_func and "
@@ -127,7 +127,7 @@ c.ensures("pickler/register-writes-only-its-own-table",
 c.raises_only("pickler/no-exception")
 c.modifies("contents(self.dispatch_table)")
 
-c = M.contract(f"{CP}.__init__", props=["C15"])
+c = M.contract(f"{CP}.__init__", props=["C15", "C03"])
 c.param("self", T.Ref("CustomizablePickler")).param("writer", T.Obj).param("reducers", T.Map(T.Obj, T.Obj, nullable=True), default=NONE)
 c.param("protocol", T.Obj, default=__import__("pyvc.values", fromlist=["VInt"]).VInt(5))
 c.free("loky_pickler_cls", T.Obj)
